@@ -5,7 +5,7 @@
 From Coq Require Import Ascii String List Bool Arith ZArith NArith Lia.
 From PTBase Require Import Exn PyStr PyNum PyVal Fmt FixedFormat.
 From PTModel Require Import Fortran.
-From Gen Require Import GenTables.
+From Gen Require Import GenTables GenRead.
 From P Require Import Num Names InconIO Wf Lines Blocks RoundTrip Idem Fields Fits Stable.
 Import ListNotations.
 Open Scope nat_scope.
@@ -99,6 +99,17 @@ Proof.
   intros W S. destruct (read_write_fits _ _ _ _ W) as [ls [Wr Rd]]. exists ls, (canon reset i).
   repeat split; [exact Wr|exact Rd|]. rewrite (write_idem_stable _ _ _ _ W S). exact Wr.
 Qed.
+
+(** ** reading into a used object
+    [read_used old]: [inc.read(filename)] on an object that held [old].  Blocks, variables, timing of
+    [old] never reach the result (by construction); its flavour does when it is TOUGHREACT: *)
+Theorem read_used_tough2_is_read old nv check ls : sim old = TOUGH2 -> read_used old nv check ls = read nv check ls.
+Proof. intro H. unfold read_used, read, read_L. rewrite H. reflexivity. Qed.
+Theorem read_used_is_read_once_flavour_is_reset old nv check ls : read_resets_flavour = true -> read_used old nv check ls = read nv check ls.
+Proof. intro H. unfold read_used, read, read_L. rewrite H, andb_false_r. reflexivity. Qed.
+Theorem read_used_depends_on_flavour_only old1 old2 nv check ls : sim old1 = sim old2 ->
+  read_used old1 nv check ls = read_used old2 nv check ls.
+Proof. intro H. unfold read_used. rewrite H. reflexivity. Qed.
 
 (** ** writing has no effect on the object
     In the model [write] is a function of the flag and the object and returns lines only: the
@@ -295,4 +306,35 @@ Proof.
   destruct (write true j) as [ls2|] eqn:W2; [|discriminate].
   apply andb_prop in H3 as [H1 _]. apply negb_true_iff in H1.
   exists w_lowered, ls, j, ls2. repeat split; assumption.
+Qed.
+
+(** 4. [read] never sets the flavour back: a TOUGH2 file read into an object that held a TOUGHREACT file
+       is TOUGHREACT, and its timing record is cut with the TOUGHREACT layout (kcyc 11100 -> 111004).
+       (the round-trip theorems are about [read], the fresh object of [t2incon(filename)]) *)
+Definition old_tr : incon := {| sim := TOUGHREACT; blocks := []; timing_ := None |}.
+Definition w_used : incon :=
+  {| sim := TOUGH2;
+     blocks := [ {| bname := s2l "AAA 1"; nseq := None; nadd := None; porosity := R false 3602879701896397 (-55); perm := None;
+                    vars := [R false 3125 5; R false 5 2] |} ];
+     timing_ := Some {| kcyc := Some 11100%Z; iter := Some 40102%Z; nm := Some 1%Z; tstart := R false 0 0; sumtim := R false 375 2 |} |}.
+Definition used_witness_check : bool :=
+  read_resets_flavour ||
+  match write false w_used with
+  | Ok ls => match read (Some 2) true ls, read_used old_tr (Some 2) true ls with
+             | Ok j, Ok u => simk_eqb (sim j) TOUGH2 && simk_eqb (sim u) TOUGHREACT &&
+                             oz_eqb (timing_kcyc j) (Some 11100%Z) && oz_eqb (timing_kcyc u) (Some 111004%Z)
+             | _, _ => false end
+  | Raise _ => false end.
+Lemma used_witness_checked : used_witness_check = true.
+Proof. vm_compute. reflexivity. Qed.
+Theorem read_into_used_object_refuted : read_resets_flavour = false ->
+  exists old i ls j u, write false i = Ok ls /\ read (Some 2) true ls = Ok j /\ read_used old (Some 2) true ls = Ok u /\
+                       sim j = TOUGH2 /\ sim u = TOUGHREACT /\ timing_kcyc j = Some 11100%Z /\ timing_kcyc u = Some 111004%Z.
+Proof.
+  intro NR. pose proof used_witness_checked as H. unfold used_witness_check in H. rewrite NR in H. cbn [orb] in H.
+  destruct (write false w_used) as [ls|] eqn:W; [|discriminate].
+  destruct (read (Some 2) true ls) as [j|] eqn:R1; [|discriminate].
+  destruct (read_used old_tr (Some 2) true ls) as [u|] eqn:R2; [|discriminate].
+  apply andb_prop in H as [H H4]. apply andb_prop in H as [H H3]. apply andb_prop in H as [H1 H2].
+  exists old_tr, w_used, ls, j, u. repeat split; auto using simk_eqb_eq, oz_eqb_eq.
 Qed.
